@@ -17,6 +17,12 @@ Z3NEW = "z3-new"
 WS = '(re.union (re.range "\\u{9}" "\\u{a}") (re.range "\\u{c}" "\\u{d}") (str.to_re "\\u{20}"))'  # RE2 \s = [\t\n\f\r ]
 
 
+# Unicode White_Space that RE2's \s does not cover: VT, NEL, NBSP, OGHAM SPACE, EN QUAD..HAIR SPACE, LINE/PARAGRAPH SEPARATOR,
+# NARROW NBSP, MEDIUM MATHEMATICAL SPACE, IDEOGRAPHIC SPACE (what unicode.IsSpace adds to [\t\n\f\r ])
+UWS = ('(re.union (str.to_re "\\u{b}") (str.to_re "\\u{85}") (str.to_re "\\u{a0}") (str.to_re "\\u{1680}") (re.range "\\u{2000}" "\\u{200a}") '
+       '(re.range "\\u{2028}" "\\u{2029}") (str.to_re "\\u{202f}") (str.to_re "\\u{205f}") (str.to_re "\\u{3000}"))')
+
+
 def ch(c):
     return '(str.to_re "\\u{%x}")' % ord(c)
 
@@ -175,6 +181,8 @@ def run(res, tier, native_validate):
     ob("object-subset-userobject", inter(O, "(re.comp %s)" % UO), "unsat", "ValidateUserObject == ValidateObject")
     for nm, lang in (("type", T), ("relation", R), ("id", ID)):
         ob("no-whitespace-in-" + nm, inter(lang, contains(WS)), "unsat", "no accepted %s contains RE2 whitespace" % nm)
+    for nm, lang in (("type", T), ("relation", R), ("id", ID)):
+        ob("no-unicode-whitespace-in-" + nm, inter(lang, contains(UWS)), "unsat", "no accepted %s contains white space (Unicode White_Space beyond RE2's \\s)" % nm)
     for nm, lang in (("type", T), ("relation", R)):
         ob("no-reserved-char-in-" + nm, inter(lang, contains(FORB)), "unsat", "no ':', '#', '@', '*' in an accepted %s" % nm)
     for nm, lang, lim in (("type", T, 254), ("relation", R, 50), ("condition", C, 50), ("object", O, 256)):
